@@ -208,32 +208,74 @@ package fiber
 // ---------------------------------------------------------------------------------------------
 // Binder pools (bind.go): a pooled binder carries only its configuration switch / decoder, which is set from
 // the app configuration before every use and cleared before it goes back ($1 = the deferred Reset+Put closure).
-// Not here: RespHeader (assumed in mw_C18.spec), Form and Query (assumed in zz_contracts_c12_verif.go) - same
-// shape; URI (its binder has no state). JSON/XML/CBOR: only "configured in this call" can be stated (Config() returns
-// a 40-field struct by value, opaque to the generator; c.Body() in between havocs the heap).
+// Every Bind.* method takes its binder from the pool of its own type (own-pool), uses exactly that binder
+// (binder-from-the-pool) and hands exactly that binder back to the same pool on every path, error paths included
+// (put-back-on-every-path: the deferred closure runs at every return; hands-back-what-it-took; own-binder-own-pool),
+// in the pool's clean state (pool-invariant: every field of the binder zero; the URI binder has no field).
+// JSON/XML/CBOR: only "configured in this call" can be stated for the decoder (Config() returns a 40-field struct
+// by value, opaque to the generator; c.Body() in between havocs the heap).
+// Query, Form, RespHeader, URI, Custom, Body, returnErr, validateStruct: zz_contracts_bind_verif.go; the contracts of
+// package binder itself: binder/zz_contracts_verif.go (export view in zz_contracts_bind_verif.go).
 // ---------------------------------------------------------------------------------------------
 //@ func (*Bind).Header
+//@   atcall @binder.GetFromThePool: own-pool: pool == headerPool()
 //@   atcall @binder.(*HeaderBinding).Bind: configured-before-use: called(Ctx.App)
 //@   atcall @binder.(*HeaderBinding).Bind: configured-from-this-app: b.EnableSplitting == last(Ctx.App).config.EnableSplittingOnParsers
+//@   atcall @binder.(*HeaderBinding).Bind: [C06] immutable-passed-on: b.Immutable == last(Ctx.App).config.Immutable
+//@   atcall @binder.(*HeaderBinding).Bind: binder-from-the-pool: b == last(@binder.GetFromThePool)
+//@   atcall (*Bind).Header$1: hands-back-what-it-took: bind == last(@binder.GetFromThePool)
+//@   ensures put-back-on-every-path: called((*Bind).Header$1)
 //@ func (*Bind).Header$1
-//@   atcall @binder.PutToThePool: pool-invariant: !binder.EnableSplitting
+//@   modifies bind.EnableSplitting, bind.Immutable
+//@   atcall @binder.PutToThePool: pool-invariant: !x.EnableSplitting && !x.Immutable
+//@   atcall @binder.PutToThePool: own-binder-own-pool: x == bind && pool == headerPool()
+//@   ensures handed-back: called(@binder.PutToThePool)
 //@ func (*Bind).Cookie
+//@   atcall @binder.GetFromThePool: own-pool: pool == cookiePool()
 //@   atcall @binder.(*CookieBinding).Bind: configured-before-use: called(Ctx.App)
 //@   atcall @binder.(*CookieBinding).Bind: configured-from-this-app: b.EnableSplitting == last(Ctx.App).config.EnableSplittingOnParsers
+//@   atcall @binder.(*CookieBinding).Bind: [C06] immutable-passed-on: b.Immutable == last(Ctx.App).config.Immutable
+//@   atcall @binder.(*CookieBinding).Bind: binder-from-the-pool: b == last(@binder.GetFromThePool)
+//@   atcall (*Bind).Cookie$1: hands-back-what-it-took: bind == last(@binder.GetFromThePool)
+//@   ensures put-back-on-every-path: called((*Bind).Cookie$1)
 //@ func (*Bind).Cookie$1
-//@   atcall @binder.PutToThePool: pool-invariant: !binder.EnableSplitting
+//@   modifies bind.EnableSplitting, bind.Immutable
+//@   atcall @binder.PutToThePool: pool-invariant: !x.EnableSplitting && !x.Immutable
+//@   atcall @binder.PutToThePool: own-binder-own-pool: x == bind && pool == cookiePool()
+//@   ensures handed-back: called(@binder.PutToThePool)
 //@ func (*Bind).JSON
+//@   atcall @binder.GetFromThePool: own-pool: pool == jsonPool()
 //@   atcall @binder.(*JSONBinding).Bind: configured-from-this-app: b.JSONDecoder != nil ==> called((*App).Config)
+//@   atcall @binder.(*JSONBinding).Bind: binder-from-the-pool: b == last(@binder.GetFromThePool)
+//@   atcall (*Bind).JSON$1: hands-back-what-it-took: bind == last(@binder.GetFromThePool)
+//@   ensures put-back-on-every-path: called((*Bind).JSON$1)
 //@ func (*Bind).JSON$1
-//@   atcall @binder.PutToThePool: pool-invariant: binder.JSONDecoder == nil
+//@   modifies bind.JSONDecoder
+//@   atcall @binder.PutToThePool: pool-invariant: x.JSONDecoder == nil
+//@   atcall @binder.PutToThePool: own-binder-own-pool: x == bind && pool == jsonPool()
+//@   ensures handed-back: called(@binder.PutToThePool)
 //@ func (*Bind).XML
+//@   atcall @binder.GetFromThePool: own-pool: pool == xmlPool()
 //@   atcall @binder.(*XMLBinding).Bind: configured-from-this-app: b.XMLDecoder != nil ==> called(Ctx.App)
+//@   atcall @binder.(*XMLBinding).Bind: binder-from-the-pool: b == last(@binder.GetFromThePool)
+//@   atcall (*Bind).XML$1: hands-back-what-it-took: bind == last(@binder.GetFromThePool)
+//@   ensures put-back-on-every-path: called((*Bind).XML$1)
 //@ func (*Bind).XML$1
-//@   atcall @binder.PutToThePool: pool-invariant: binder.XMLDecoder == nil
+//@   modifies bind.XMLDecoder
+//@   atcall @binder.PutToThePool: pool-invariant: x.XMLDecoder == nil
+//@   atcall @binder.PutToThePool: own-binder-own-pool: x == bind && pool == xmlPool()
+//@   ensures handed-back: called(@binder.PutToThePool)
 //@ func (*Bind).CBOR
+//@   atcall @binder.GetFromThePool: own-pool: pool == cborPool()
 //@   atcall @binder.(*CBORBinding).Bind: configured-from-this-app: b.CBORDecoder != nil ==> called((*App).Config)
+//@   atcall @binder.(*CBORBinding).Bind: binder-from-the-pool: b == last(@binder.GetFromThePool)
+//@   atcall (*Bind).CBOR$1: hands-back-what-it-took: bind == last(@binder.GetFromThePool)
+//@   ensures put-back-on-every-path: called((*Bind).CBOR$1)
 //@ func (*Bind).CBOR$1
-//@   atcall @binder.PutToThePool: pool-invariant: binder.CBORDecoder == nil
+//@   modifies bind.CBORDecoder
+//@   atcall @binder.PutToThePool: pool-invariant: x.CBORDecoder == nil
+//@   atcall @binder.PutToThePool: own-binder-own-pool: x == bind && pool == cborPool()
+//@   ensures handed-back: called(@binder.PutToThePool)
 
 // ---------------------------------------------------------------------------------------------
 // Route parameters (the contract of (*DefaultCtx).Params lives in zz_contracts_c06_verif.go, clause
